@@ -55,7 +55,9 @@ NOT_DECIDED = "a scheme-qualified target in the static-directory redirect (needs
 
 WEB = "tornado/web.py"
 ENCODERS = ("urlencode", "url_escape", "url_concat")
-PATH_SOURCES = ("self.request.path", "self.request.uri")
+# request-derived path material: the raw request path / URI, and what routing extracted from it (the URL-decoded
+# capture groups a handler keeps as self.path / path_args / path_kwargs)
+PATH_SOURCES = ("self.request.path", "self.request.uri", "self.path", "self.path_args", "self.path_kwargs")
 ANCHORS = (
     ("removeslash.<locals>.wrapper", "path"),
     ("addslash.<locals>.wrapper", "path"),
@@ -324,5 +326,7 @@ MUTANTS = [
     ("authenticated: redirects back to next_url for absolute login URLs", _in("authenticated.<locals>.wrapper", replace_stmt(lambda st: isinstance(st, ast.Assign) and "full_url" in _u(st.value), lambda st: [st, parse_stmt("url = next_url")])), "C28.login-only"),
     ("authenticated: login URL resolved against the request URI with urljoin (seeded C28-adv4)", _in("authenticated.<locals>.wrapper", replace_stmt(lambda st: isinstance(st, ast.Assign) and "get_login_url" in _u(st.value), lambda st: [parse_stmt("url = urllib.parse.urljoin(self.request.uri, self.get_login_url())")])), "C28.login-only"),
     ("authenticated: request host placed in front of the login URL", _in("authenticated.<locals>.wrapper", replace_stmt(lambda st: isinstance(st, ast.AugAssign) and "urlencode" in _u(st), lambda st: [st, parse_stmt("url = '//' + self.request.host + url")])), "C28.login-only"),
+    ("static-directory redirect built from the decoded self.path (the '//' guard tests another string) (seeded C28-adv5)", _in("StaticFileHandler.validate_absolute_path", replace_expr(lambda n: isinstance(n, ast.BinOp) and _u(n) == "self.request.path + '/'", lambda n: parse_expr("self.make_static_url(self.settings, self.path + '/', include_version=False)"))), "C28.same-site"),
+    ("static-directory redirect guard moved to the decoded path while the raw request path is redirected to", _in("StaticFileHandler.validate_absolute_path", replace_expr(lambda n: isinstance(n, ast.Call) and q.call_attr(n) == "startswith" and _u(n.func.value) == "self.request.path" and "//" in _u(n), lambda n: parse_expr("self.path.startswith('//')"))), "C28.same-site"),
     ("new request-derived redirect in RedirectHandler", _in("RedirectHandler.get", replace_stmt(lambda st: isinstance(st, ast.Assign) and "format" in _u(st.value), lambda st: [parse_stmt("to_url = self._url.format(*args, **kwargs) or self.request.path")])), "C28.inventory"),
 ]
